@@ -98,13 +98,19 @@ pub fn random_definitions(seed: u64, n: usize) -> Vec<Definition> {
         .map(|k| {
             let mut rng = Rng::for_run(seed, "defsrc/random-def", k);
             // flavours: plain / many tokens (jump tables, many states) / conflicts (several graph errors)
-            let (conflicts, many) = match k % 4 {
+            let (conflicts, many) = match k % 5 {
                 0 => (false, false),
                 1 => (false, true),
                 2 => (true, true),
-                _ => (true, false),
+                3 => (true, false),
+                _ => (true, true),
             };
-            let d = defs::random_def(&mut rng, &format!("Rnd{}", k), conflicts, many);
+            let d = if k % 5 == 4 {
+                // several related priority conflicts at once (rejected definitions: the error text is output too)
+                defs::conflict_family_def(&mut rng, &format!("Rnd{}", k))
+            } else {
+                defs::random_def(&mut rng, &format!("Rnd{}", k), conflicts, many)
+            };
             Definition { id: format!("random/{}", k), origin: "random".into(), source: defs::enum_source(&d) }
         })
         .collect()
